@@ -1,6 +1,7 @@
 import ApdVerif.Model.Dispatch
 import ApdVerif.Oracle.TransOps
 import ApdVerif.Spec.Defs
+import ApdVerif.Lemmas.C12Lemmas
 /-!
 # C12 (partial) — Exp, Ln, Log10 and Pow
 
@@ -12,24 +13,33 @@ it is judged per generated case by the interval enclosures of `Oracle/Interval.l
 soundness is the subject of `Props/C12Interval.lean`.
 -/
 namespace Apd.Props
-open Apd Apd.Oracle
+open Apd Apd.Oracle Apd.C12L
 
 theorem C12_exp_zero (c : Ctx) (x : Dec) (hx : x.form = .finite) (h0 : x.coeff = 0) :
     expSpecials c x = some { d := decOne } := by
-  sorry
+  simp [expSpecials, shouldSetAsNaN, Dec.isNaN, Dec.isZero, hx, h0]
 
 theorem C12_ln_one (c : Ctx) : logSpecials c decOne = some { d := decZero } := by
-  sorry
+  rfl
 
 /-- ln / log10 of any representation of one (1, 1.0, 1.00 …) is exactly zero -/
 theorem C12_log_one_any (c : Ctx) (k : Nat) :
     logSpecials c { form := .finite, neg := false, exp := -(k : Int), coeff := 10 ^ k } = some { d := decZero } := by
-  sorry
+  have hnd := MulL.ndigits_pow k
+  have hn1 : ndigits 1 = 1 := by decide
+  rcases Nat.eq_zero_or_pos k with hk | hk
+  · subst hk; rfl
+  · have hk' : ¬ (-(k:Int) = 0) := by omega
+    simp [logSpecials, shouldSetAsNaN, Dec.isNaN, Dec.sign, Dec.cmp, decZero, decOne, hnd, hn1, hk', cmpNat]
+    intro h; omega
 
 /-- x ** 0 = 1 for every finite non-zero x -/
 theorem C12_pow_zero_exponent (c : Ctx) (x y : Dec) (hx : x.form = .finite) (hxc : x.coeff ≠ 0)
     (hy : y.form = .finite) (hyc : y.coeff = 0) : powIntOp c x y = some { d := decOne } := by
-  sorry
+  have h : powSpecials c x y = some { d := decOne } := by
+    simp [powSpecials, shouldSetAsNaN, Dec.isNaN, Dec.sign, hx, hy, hxc, hyc]
+    cases x.neg <;> simp
+  simp [powIntOp, h]
 
 /-- the exact integer power of a finite decimal -/
 def exactPow (x : Dec) (n : Nat) : Dec :=
@@ -46,15 +56,37 @@ theorem C12_integer_power_exact (c : Ctx) (hc : c.WF) (x : Dec) (n : Nat)
     (hrange : ∀ k, k ≤ n → -90000 ≤ x.exp * k ∧ x.exp * k + (ndigits (x.coeff ^ k) : Int) ≤ 90000) :
     powIntOp c x { form := .finite, neg := false, exp := 0, coeff := n } =
       some (finish c (ctxRound c (exactPow x n))) := by
-  sorry
+  have hfit' : ndigits (x.coeff ^ n) ≤ (if c.prec < ndigits x.coeff then ndigits x.coeff else c.prec) + 10 := by
+    split_ifs <;> omega
+  exact powIntOp_exact c x n hx hxc hn hfit' hrange
 
 /-- x ** 1 is x rounded to the context -/
 theorem C12_pow_one (c : Ctx) (hc : c.WF) (x : Dec) (hx : x.form = .finite) (hxc : x.coeff ≠ 0)
     (hr : -90000 ≤ x.exp ∧ x.exp + (ndigits x.coeff : Int) ≤ 90000) :
     powIntOp c x decOne = some (finish c (ctxRound c { x with form := .finite })) := by
-  sorry
+  have hfit' : ndigits (x.coeff ^ 1) ≤ (if c.prec < ndigits x.coeff then ndigits x.coeff else c.prec) + 10 := by
+    rw [pow_one]; split_ifs <;> omega
+  have hrange : ∀ k : Nat, k ≤ 1 → -90000 ≤ x.exp * (k : Int) ∧
+      x.exp * (k : Int) + (ndigits (x.coeff ^ k) : Int) ≤ 90000 := by
+    intro k hk
+    have hn1 : ndigits 1 = 1 := by decide
+    rcases Nat.le_one_iff_eq_zero_or_eq_one.mp hk with h | h <;> subst h
+    · simp [hn1]
+    · simp only [pow_one, Nat.cast_one, mul_one]; omega
+  have h := powIntOp_exact c x 1 hx hxc (by decide) hfit' hrange
+  have hx1 : xpow x 1 = { x with form := .finite } := by
+    rw [xpow_one x hx]; cases x; simp_all
+  rw [hx1] at h
+  exact h
 
 example : (powIntOp { prec := 5, emax := 99, emin := -99 } { coeff := 12, exp := -1 } { coeff := 3 }).map (·.d)
     = some { coeff := 1728, exp := -3 } := by decide
+
+#print axioms C12_exp_zero
+#print axioms C12_ln_one
+#print axioms C12_log_one_any
+#print axioms C12_pow_zero_exponent
+#print axioms C12_integer_power_exact
+#print axioms C12_pow_one
 
 end Apd.Props
